@@ -331,10 +331,16 @@ func runC12(c *Ctx) {
 					if !inLoop {
 						// the empty row
 						emp := false
+						lenS := &Term{Op: "builtin", Sym: "len", Args: []*Term{s}}
 						for _, cd := range p.Conds {
-							r := cd.Rel()
-							if r.B != nil && isLenOf(r.A, s) && r.B.IsConst("0") && r.Op == "==" {
-								emp = true
+							if pl, kind, isInt := cd.Rel().IntNorm(); isInt {
+								// len == 0, or len < 1 (a length is never negative)
+								if kind == "=" && pl.Equal(canonSign(ToPoly(lenS))) {
+									emp = true
+								}
+								if kind == ">" && pl.Equal(polyConst(1).Add(ToPoly(lenS), -1)) {
+									emp = true
+								}
 							}
 						}
 						if !emp || len(eventsOf(p, func(e *Event) bool { return e.Kind == "store" || (e.Kind == "call" && e.Name == "builtin.copy") })) != 0 {
@@ -366,7 +372,9 @@ func runC12(c *Ctx) {
 						continue
 					}
 					if p.End == EndLoopBack {
-						if !(cont.Op == "<" && cont.A.Key() == lv.Key() && isLenOf(cont.B, s)) {
+						lenS := &Term{Op: "builtin", Sym: "len", Args: []*Term{s}}
+						pl, kind, isInt := cont.IntNorm()
+						if !(isInt && kind == ">" && pl.Equal(ToPoly(lenS).Add(ToPoly(lv), -1))) {
 							ok, why = false, "the loop does not run while i < len(slice): "+cont.String()+" (a different bound leaves the tail unset for some lengths)"
 						}
 						var cp *Event
